@@ -57,7 +57,7 @@ def r1_r2(idx, rep):
         fi = idx.method("CsvPath", m)
         rep.analysed(fi)
         loops = [n for n in walk_no_nested(fi.node) if isinstance(n, ast.For)]
-        okl = len(loops) == 1 and unparse(loops[0].iter) == "self.next()"
+        okl = len(loops) == 1 and unparse(K.resolve_local(fi, loops[0].iter)) == "self.next()"
         rep.check(okl, "R1", f"{fi.file}::CsvPath.{m} iterates self.next()", f"loops over {[unparse(l.iter) for l in loops]}: lines must come lazily from the generator (wrapping it in list() would run the side effects of later lines)", K.where(fi, fi.node))
         direct = [unparse(c) for c in walk_no_nested(fi.node) if isinstance(c, ast.Call) and call_name(c) in drivers and (K.call_receiver(c) or "").startswith("self")]
         rep.check(not direct, "R1", f"{fi.file}::CsvPath.{m} does not drive lines itself", f"{direct}", K.where(fi, fi.node))
